@@ -116,6 +116,28 @@ def check_case(case, ctx):
             ctx.violation("C12/result-depends-on-ranking-order-or-names", f"permuting the rankings / renaming the elements "
                           f"changed the result: {got2} vs expected {want2}", {**sub, "ds2": ds2}, observed=got2,
                           expected=want2)
+    # history: the same Dataset object is mutated, then aggregated again by the same algorithm object
+    if len(elems) >= 3:
+        victim = r2.choice(elems)
+        ds3 = [[[e for e in b if e != victim] for b in r] for r in ds]
+        ds3 = [[b for b in r if b] for r in ds3]
+        ds3 = [r for r in ds3 if r]
+        if ds3 and len(ref.universe(ds3)) >= 2 and ref.universe(libx.normalise_raw(ds3)) == ref.universe(ds3):
+            try:
+                dataset.remove_elements({ck.Element(victim)})
+                mutated = True
+            except Exception:      # pylint: disable=broad-except
+                mutated = False
+            if mutated and (ref.is_complete(ds3) or ref.borda_family(sch) is not None):
+                st3, cons3, _ = algos.run_config(cfg, dataset, scheme, True, 0)
+                ctx.count("borda_after_mutation")
+                want3, _m = ref.borda(ds3, sch, ubi)
+                if st3 == "ok":
+                    got3 = libx.raw_ranking(cons3.consensus_rankings[0])
+                    if ref.canon(got3) != ref.canon(want3):
+                        ctx.violation("C12/not-ordered-by-mean-score:after-removing-an-element", f"after remove_elements("
+                                      f"{victim!r}) on the same Dataset object Borda returned {got3}, expected {want3}",
+                                      {**sub, "removed": victim}, observed=got3, expected=want3)
     if len(elems) >= 3 and (any(len(b) >= 2 for b in got) or not complete):
         ctx.nontrivial(sub)
         ctx.sample({**sub, "returned": got, "means": {str(k): float(v) for k, v in mean.items()}},
@@ -134,7 +156,8 @@ def reach(counters, tier, info):
     for name, key, need in [("outputs with a tie", "outputs_with_tie", 300 * k),
                             ("expected refusals", "refusals_expected", 100 * k),
                             ("expected refusals of look-alike schemes", "lookalike_refusals_expected", 50 * k),
-                            ("metamorphic checks", "metamorphic_checks", 1000 * k)]:
+                            ("metamorphic checks", "metamorphic_checks", 1000 * k),
+                            ("Borda runs on a Dataset object mutated after a first run", "borda_after_mutation", 500 * k)]:
         v = counters.get(key, 0)
         out.append({"name": name, "observed": v, "required": need, "ok": v >= need})
     return out
